@@ -211,3 +211,100 @@ def r2_bounds(ctx):
 def run(ctx):
     r1_signs(ctx)
     r2_bounds(ctx)
+    r3_no_moves_flag(ctx)
+
+
+def r3_no_moves_flag(ctx):
+    """the `legal_moves_remaining` flag handed to the evaluator is backed by evidence on every path"""
+    rid = "C08.R3"
+    ctx.rule(rid, "the evaluator is told 'legal moves remain' only where a legal move is known to exist (is_any_move_legal / a validated make) and 'none remain' only where none was found; quiescence stand-pat passes true by design", floor=3)
+    prog = ctx.prog
+    BB = "inkayaku_board::board::Bitboard::"
+    f = ctx.fn(rid, SEARCH + "search_negamax")
+    cfg, ex = Cfg(f), Exprs(f)
+    # Search::evaluate must pass its flag through unchanged
+    se = ctx.fn(rid, SEARCH + "evaluate")
+    sex = Exprs(se)
+    passed = False
+    for b in se["blocks"]:
+        t = b["term"]
+        if t["k"] == "call" and (t["callee"].get("orig") or t["callee"].get("key") or "").endswith("Heuristic::evaluate"):
+            passed = sex.operand(t["args"][3]) == ("param", 4)
+    ctx.ob(rid, "Search::evaluate|flag-passed-through", passed, "" if passed else "Search::evaluate does not hand its legal_moves_remaining parameter to Heuristic::evaluate unchanged", ctx.where(se))
+
+    def evidence(block, want_true):
+        """is `block` control dependent on a test that establishes (non-)existence of a legal move?"""
+        for (a, sb) in cfg.control_deps_transitive(block):
+            sw = f["blocks"][a]["term"]
+            if sw["k"] != "switch":
+                continue
+            d = ex.operand(sw["discr"])
+            true_edge = sb == sw["otherwise"]
+            neg = False
+            while d[0] == "un" and d[1] == "Not":
+                d = d[2]
+                neg = not neg
+            val = true_edge != neg
+            if d[0] == "call" and d[1] == BB + "is_any_move_legal" and val == want_true:
+                return "is_any_move_legal == %s" % want_true
+            if d[0] == "local":
+                # a flag local such as `legal_moves_encountered`: true only after a validated make
+                defs = ex.defs.get(d[1], [])
+                consts = [(dd[1], dd[3]["a"][0].get("v")) for dd in defs if dd[0] == "stmt" and dd[3]["op"] == "use" and dd[3]["a"][0].get("k") == "const"]
+                if len(consts) == len(defs) and {v for _, v in consts} == {True, False}:
+                    trues = [blk for blk, v in consts if v is True]
+                    backed = all(any((f["blocks"][a2]["term"]["k"] == "switch" and ex.operand(f["blocks"][a2]["term"]["discr"])[0] in ("call", "un")
+                                      and any(x[0] == "call" and x[1] == BB + "is_valid" for x in leaves(ex.operand(f["blocks"][a2]["term"]["discr"]))))
+                                     for (a2, s2) in cfg.control_deps_transitive(tb)) or _after_valid(cfg, f, ex, tb, BB) for tb in trues)
+                    if backed and val == want_true:
+                        return "flag local _%d (set only after a validated make) == %s" % (d[1], want_true)
+        return None
+    sites = [b for b in sorted(cfg.reach) if f["blocks"][b]["term"]["k"] == "call" and f["blocks"][b]["term"]["callee"].get("key") == SEARCH + "evaluate"]
+    if not sites:
+        ctx.lost(rid, "calls of Search::evaluate in search_negamax")
+        return
+    for n, b in enumerate(sites):
+        t = f["blocks"][b]["term"]
+        op = t["args"][3]
+        problems, proofs = [], []
+        if op.get("k") == "const":
+            ev = evidence(b, bool(op.get("v")))
+            (proofs if ev else problems).append(ev or "constant %s without evidence" % op.get("v"))
+        else:
+            l = op["pl"]["l"]
+            # follow plain copies
+            seen = set()
+            while l not in seen:
+                seen.add(l)
+                ds = ex.defs.get(l, [])
+                if len(ds) == 1 and ds[0][0] == "stmt" and ds[0][3]["op"] == "use" and ds[0][3]["a"][0].get("k") in ("copy", "move") and not ds[0][3]["a"][0]["pl"]["p"]:
+                    l = ds[0][3]["a"][0]["pl"]["l"]
+            for d in ex.defs.get(l, []):
+                if d[0] == "call" and d[3]["callee"].get("key") == BB + "is_any_move_legal":
+                    proofs.append("= is_any_move_legal(..)")
+                elif d[0] == "stmt" and d[3]["op"] == "use" and d[3]["a"][0].get("k") == "const" and isinstance(d[3]["a"][0].get("v"), bool):
+                    v = d[3]["a"][0]["v"]
+                    ev = evidence(d[1], v)
+                    (proofs if ev else problems).append(ev or "set to %s at line %d without testing for a legal move" % (v, f["blocks"][d[1]]["stmts"][d[2]]["line"] if d[2] is not None else 0))
+                else:
+                    problems.append("computed by %s" % (show(ex.rvalue(d[3])) if d[0] == "stmt" else (d[3]["callee"].get("key") or "?")))
+            if not ex.defs.get(l):
+                problems.append("parameter or unknown value")
+        ctx.ob(rid, "search_negamax|evaluate-call-%d" % n, not problems,
+               "" if not problems else "search_negamax tells the evaluator whether legal moves remain with a value that is %s: a move-less position that is not in check (stalemate) or a mate can then be valued by the static evaluation"
+               % "; ".join(problems), ctx.where(f, t["line"]), sample={"call": n, "flag_backed_by": proofs})
+
+
+def _after_valid(cfg, f, ex, blk, BB):
+    """block `blk` is reached only after `is_valid()` returned true for the move just made: some dominating
+    switch on is_valid has its false edge leaving the region"""
+    for a in sorted(cfg.reach):
+        sw = f["blocks"][a]["term"]
+        if sw["k"] == "switch" and cfg.dominates(a, blk) and a != blk:
+            d = ex.operand(sw["discr"])
+            if any(x[0] == "call" and x[1] == BB + "is_valid" for x in leaves(d)):
+                neg = d[0] == "un" and d[1] == "Not"
+                valid_succ = sw["targets"][0][1] if neg else sw["otherwise"]
+                if cfg.dominates(valid_succ, blk):
+                    return True
+    return False
